@@ -14,10 +14,15 @@
 (***************************************************************************)
 EXTENDS OciAuthFile, Json, IOUtils
 
-CONSTANT F13_TableErrorTextVaries  \* relaxation: the error TEXT of a failing table lookup may differ between decodes
+CONSTANTS F13_TableErrorTextVaries,  \* relaxation: the error TEXT of a failing table lookup may differ between decodes
+          Diagnose                   \* FALSE: a line the specification does not allow stops the validation (the
+                                     \* rejected line is the depth reached).  TRUE: it is reported with
+                                     \* PrintT(<<"REJECT", line>>), the rest of its scenario is passed over and
+                                     \* validation resumes at the next reset line - one pass lists all rejected scenarios.
 
 VARIABLES l,     \* next trace line
-          msgs   \* host -> error text seen for it under the current configuration
+          msgs,  \* host -> error text seen for it under the current configuration
+          skip   \* (Diagnose) the current scenario has been rejected
 
 Trace == ndJsonDeserialize(IOEnv.TRACE_FILE)
 
@@ -26,6 +31,7 @@ EmptyCfg == [auths |-> <<>>, credsStore |-> "", credHelpers |-> <<>>, helpers |-
 TInit == /\ AInit({EmptyCfg})
          /\ l = 2
          /\ msgs = <<>>
+         /\ skip = FALSE
 
 ResetStep(e) ==
   /\ cfg' = [auths |-> e.cfg.auths, credsStore |-> e.cfg.credsStore,
@@ -37,36 +43,47 @@ ResetStep(e) ==
 \* A file holding an auth field nobody can decode must be refused; a file whose auth fields
 \* are all canonical base64 of "user:password" must load; in between (line breaks, stray
 \* trailing bits) either is fine.
+LoadOkay(e) ==
+  IF MustFailKeys(cfg) # {} THEN ~e.ok
+  ELSE IF MayFailKeys(cfg) # {} THEN TRUE
+  ELSE e.ok
 LoadStep(e) ==
-  /\ IF MustFailKeys(cfg) # {} THEN ~e.ok
-     ELSE IF MayFailKeys(cfg) # {} THEN TRUE
-     ELSE e.ok
   /\ loaded' = e.ok
   /\ UNCHANGED <<cfg, tbl, last, msgs>>
 
-LookupStep(e) ==
+TextJudged(e) == ~e.ok /\ ~(F13_TableErrorTextVaries /\ e.class = "table")
+LookupOkay(e) ==
   /\ loaded
   /\ LET r == Lookup(cfg, e.host)
      IN /\ e.ok = r.ok
         /\ e.class = r.class
         /\ e.refresh = r.refresh /\ e.access = r.access /\ e.user = r.user /\ e.pass = r.pass
         /\ e.calls = r.calls
-        /\ last' = [set |-> TRUE, host |-> e.host, res |-> r]
-  /\ IF e.ok \/ (F13_TableErrorTextVaries /\ e.class = "table")
-     THEN msgs' = msgs
-     ELSE /\ e.host \in DOMAIN msgs => msgs[e.host] = e.msg
-          /\ msgs' = (e.host :> e.msg) @@ msgs
+  /\ (TextJudged(e) /\ e.host \in DOMAIN msgs) => msgs[e.host] = e.msg
+LookupStep(e) ==
+  /\ last' = [set |-> TRUE, host |-> e.host, res |-> Lookup(cfg, e.host)]
+  /\ msgs' = IF TextJudged(e) THEN (e.host :> e.msg) @@ msgs ELSE msgs
   /\ UNCHANGED <<cfg, loaded, tbl>>
+
+\* a panic, or anything else the specification has no step for, is never allowed
+Okay(e) == CASE e.op = "load" -> LoadOkay(e)
+             [] e.op = "lookup" -> LookupOkay(e)
+             [] OTHER -> FALSE
 
 TNext ==
   /\ l <= Len(Trace)
   /\ l' = l + 1
   /\ LET e == Trace[l]
-     IN CASE e.op = "reset" -> ResetStep(e)
-          [] e.op = "load" -> LoadStep(e)
-          [] e.op = "lookup" -> LookupStep(e)
-          [] OTHER -> FALSE            \* a panic, or anything else the specification has no step for
-TSpec == TInit /\ [][TNext]_<<avars, l, msgs>>
+     IN IF e.op = "reset" THEN ResetStep(e) /\ skip' = FALSE
+        ELSE IF skip THEN UNCHANGED <<avars, msgs, skip>>
+        ELSE IF Okay(e)
+             THEN /\ IF e.op = "load" THEN LoadStep(e) ELSE LookupStep(e)
+                  /\ skip' = FALSE
+             ELSE /\ Diagnose
+                  /\ PrintT(<<"REJECT", l>>)
+                  /\ skip' = TRUE
+                  /\ UNCHANGED <<avars, msgs>>
+TSpec == TInit /\ [][TNext]_<<avars, l, msgs, skip>>
 
 \* The whole trace was consumed: one state per line after the header.
 Accepted == TLCGet("stats").diameter = Len(Trace)
